@@ -112,8 +112,9 @@ class Bridge(object):
       v.append(("unknown-port", "frame was sent out ports %r, switch has %r" % (outs, self.ports), {"dst": kind}))
 
     # -- learning of the ideal bridge precedes forwarding
-    self.seen.setdefault(src, set()).add(in_port)
-    self.recent[src] = in_port
+    if not is_multicast(src):          # a group address is never a station location (802.1D 7.8)
+      self.seen.setdefault(src, set()).add(in_port)
+      self.recent[src] = in_port
 
     want_ideal = self.ideal(in_port, dst, ethertype, self.recent)
     so = sorted(outs)
